@@ -1,0 +1,23 @@
+//go:build verif
+
+package nsqd
+
+import "bytes"
+
+// VerifReadResponseBounded runs the real readResponseBounded on a connection that
+// yields exactly b and then nothing more (EOF stands for the read timeout).  A panic
+// inside the call is caught and reported, so that a crash of the reader is an
+// observation of the harness instead of the death of the harness.
+func VerifReadResponseBounded(b []byte, limit int64) (resp []byte, unread int, errored bool, panicked bool) {
+	r := bytes.NewReader(b)
+	defer func() {
+		if e := recover(); e != nil {
+			resp, unread, errored, panicked = nil, r.Len(), false, true
+		}
+	}()
+	out, err := readResponseBounded(r, limit)
+	if err != nil {
+		return nil, r.Len(), true, false
+	}
+	return out, r.Len(), false, false
+}
